@@ -99,10 +99,13 @@ def prepare(folder, kind, texts, pre):
         if hasattr(P.parse, "initialized_dbs"):
             del P.parse.initialized_dbs
         P.parse("model Seed end Seed;", model_cache_folder=Path(folder))
-        for ti in pre:
+        for ti, _age in pre:
             P.parse(texts[ti], model_cache_folder=Path(folder))
         c = sqlite3.connect(db)
         c.execute("DELETE FROM models WHERE txt_hash=?", (sha("model Seed end Seed;"),))
+        now_us = time.time_ns() // 1000
+        for ti, age in pre:      # age of the entry in days: last_hit is written directly
+            c.execute("UPDATE models SET last_hit=? WHERE txt_hash=?", (now_us - int(age * 86400e6), sha(texts[ti])))
         c.commit(); c.close()
         return db
     c = sqlite3.connect(db)
@@ -356,7 +359,8 @@ def run_sched(case):
             try:
                 t = P.parse(texts[spec["text"]],
                             model_cache_folder=(alias(call.cid) if spec["init"] else plain),
-                            always_update_last_hit=bool(spec["upd"]))
+                            always_update_last_hit=bool(spec["upd"]),
+                            cache_expiration_days=int(spec.get("exp", 30)))
                 call.result = ["ok", "none" if t is None else dump(t)]
             except BaseException as e:  # noqa
                 call.result = ["exc", type(e).__name__, str(e)[:120]]
